@@ -51,7 +51,7 @@ def key_of(v):
     if isinstance(v, RF):
         a = v.single_atom()
         return a if a is not None else v.key()
-    if isinstance(v, (TupleVal, CompVal)):
+    if isinstance(v, (TupleVal, CompVal)) or type(v).__name__ == 'LambdaVal':
         return v.key()
     if v is None:
         return NONE
@@ -221,12 +221,37 @@ def _is_trivial(fn: FuncInfo) -> bool:
     return False
 
 
+def _is_private_helper(fn: FuncInfo, caller: FuncInfo) -> bool:
+    """A helper extracted inside the caller's class (or its bases/subclasses) or module: _name / __name."""
+    if not fn.name.startswith('_') or (fn.name.startswith('__') and fn.name.endswith('__')):
+        return False
+    if fn.cls is None:
+        return fn.module is caller.module
+    if caller.cls is None:
+        return False
+    return fn.cls.is_subclass_of(caller.cls) or caller.cls.is_subclass_of(fn.cls)
+
+
+class LambdaVal:
+    __slots__ = ('node', 'env', 'func')
+
+    def __init__(self, node, env, func):
+        self.node, self.env, self.func = node, env, func
+
+    def key(self):
+        return ('lambda', getattr(self.node, 'lineno', 0), getattr(self.node, 'col_offset', 0))
+
+    def __repr__(self):
+        return f'<lambda@{getattr(self.node, "lineno", 0)}>'
+
+
 class Explorer:
     def __init__(self, ix: Index, pta: PTA,
                  inline: Optional[Callable[[FuncInfo, State], bool]] = None,
                  may_raise: Optional[Callable[[Event], bool]] = None,
                  unroll: int = 2, max_depth: int = 5, max_paths: int = MAX_PATHS,
-                 inline_ctor: bool = True, alias: str = 'distinct'):
+                 inline_ctor: bool = True, alias: str = 'distinct', inline_private: bool = True,
+                 opaque=()):
         self.ix, self.pta = ix, pta
         self._inline = inline
         self._may_raise = may_raise
@@ -235,6 +260,8 @@ class Explorer:
         self.max_paths = max_paths
         self.inline_ctor = inline_ctor
         self.alias = alias            # 'distinct': different symbolic bases denote different objects; 'may'
+        self.inline_private = inline_private   # helpers extracted inside a class are looked through
+        self.opaque = set(opaque)
         self._writes_cache: Dict[str, Set[object]] = {}
         self._npaths = 0
         self.dropped = 0
@@ -247,10 +274,14 @@ class Explorer:
             return False                      # no recursive inlining
         if fn.kind != 'function':
             return False
+        if fn in self.opaque:
+            return False
         if _is_trivial(fn):
             return True
-        if self._inline is not None:
-            return bool(self._inline(fn, st))
+        if self._inline is not None and self._inline(fn, st):
+            return True
+        if self.inline_private and _is_private_helper(fn, st.func):
+            return True
         return False
 
     def explore(self, fn: FuncInfo, args: Optional[Dict[str, object]] = None,
@@ -756,7 +787,7 @@ class Explorer:
         if isinstance(e, ast.JoinedStr):
             return [(s, atomv(('str', '<f-string>')), None)]
         if isinstance(e, ast.Lambda):
-            return [(s, atomv(('lambda', e.lineno)), None)]
+            return [(s, LambdaVal(e, dict(s.env), s.func), None)]
         if isinstance(e, ast.Starred):
             return self.ev(e.value, s)
         if isinstance(e, ast.NamedExpr):
@@ -1048,6 +1079,26 @@ class Explorer:
 
     def ev_call(self, e: ast.Call, s: State):
         f = s.func
+        # next((E for v in IT if C), D): first match of a scan - desugared into the equivalent loop
+        if isinstance(e.func, ast.Name) and e.func.id == 'next' and e.args and \
+                isinstance(e.args[0], ast.GeneratorExp) and len(e.args[0].generators) == 1 and 'next' not in s.env:
+            return self.ev_first_match(e, s)
+        # call of a local lambda
+        if isinstance(e.func, ast.Name) and isinstance(s.env.get(e.func.id), LambdaVal):
+            lam = s.env[e.func.id]
+            out = []
+            for s2, vals, exc in self.ev_many([a for a in e.args], s):
+                if exc:
+                    out.append((s2, None, exc))
+                    continue
+                names = [a.arg for a in lam.node.args.args]
+                saved = dict(s2.env)
+                s2.env.update(lam.env)
+                s2.env.update(dict(zip(names, vals)))
+                for s3, v, exc2 in self.ev(lam.node.body, s2):
+                    s3.frames[-1] = (s3.frames[-1][0], dict(saved))
+                    out.append((s3, v, exc2))
+            return out
         # receiver
         recv_expr = e.func.value if isinstance(e.func, ast.Attribute) else None
         is_super = isinstance(recv_expr, ast.Call) and isinstance(recv_expr.func, ast.Name) and \
@@ -1066,6 +1117,41 @@ class Explorer:
             out.extend(self.do_call(e, recv, args, kwargs, s2))
         return out
 
+    def ev_first_match(self, e: ast.Call, s: State):
+        gen = e.args[0]
+        g = gen.generators[0]
+        dflt = e.args[1] if len(e.args) > 1 else None
+        test = None
+        for c in g.ifs:
+            test = c if test is None else ast.BoolOp(op=ast.And(), values=[test, c])
+        body = [ast.Return(value=gen.elt)]
+        if test is not None:
+            body = [ast.If(test=test, body=[ast.Return(value=gen.elt)], orelse=[])]
+        loop = ast.For(target=g.target, iter=g.iter, body=body, orelse=[])
+        tail = ast.Return(value=dflt) if dflt is not None else \
+            ast.Raise(exc=ast.Call(func=ast.Name(id='StopIteration', ctx=ast.Load()), args=[], keywords=[]), cause=None)
+        for n in (loop, tail):
+            ast.copy_location(n, e)
+            ast.fix_missing_locations(n)
+        out = []
+        saved_names = {t.id for t in ast.walk(g.target) if isinstance(t, ast.Name)}
+        before = {n: s.env.get(n) for n in saved_names}
+        for s2, oc in self.run_block([loop, tail], [s]):
+            for n, v in before.items():
+                if v is None:
+                    s2.env.pop(n, None)
+                else:
+                    s2.env[n] = v
+            if oc is not None and oc[0] == 'return':
+                # the synthetic 'return' events belong to the expression, not to the function
+                s2.events = [ev for ev in s2.events if not (ev.kind == 'return' and ev.node in (body[0] if test is None else body[0].body[0], tail))]
+                out.append((s2, oc[1], None))
+            elif oc is not None and oc[0] == 'raise':
+                out.append((s2, None, oc[1]))
+            else:
+                out.append((s2, atomv(NONE), None))
+        return out
+
     def callee_name(self, e: ast.Call) -> str:
         fn = e.func
         if isinstance(fn, ast.Attribute):
@@ -1081,6 +1167,7 @@ class Explorer:
         news = [c for c in callees if isinstance(c, tuple) and c[0] == 'new']
         exts = self.pta.ext_callees(f, e)
         name = self.callee_name(e)
+        args, kwargs = self.normalise_args(internal, news, args, kwargs)
         # receiver that is a module/class is not a receiver
         if isinstance(recv, RF):
             ra = recv.single_atom()
@@ -1139,6 +1226,37 @@ class Explorer:
             s2.emit('raise', e, exc=x, implicit=True)
             results.append((s2, None, x))
         return results
+
+    def normalise_args(self, internal, news, args, kwargs):
+        """Keyword arguments of calls to repository functions are moved to their positions (defaults that are
+        constants are filled in), so that rules need not care how a call site spells its arguments."""
+        if not kwargs:
+            return args, kwargs
+        sigs = []
+        if news:
+            for nw in news:
+                init = self.ix.classes[nw[1]].lookup('__init__')
+                if init is not None:
+                    sigs.append((init.param_names[1:], init.defaults()))
+        else:
+            for c in internal:
+                names = c.param_names[1:] if (c.cls is not None and not c.is_static) else c.param_names
+                sigs.append((names, c.defaults()))
+        if not sigs or any(sg[0] != sigs[0][0] for sg in sigs):
+            return args, kwargs
+        names, defaults = sigs[0]
+        out = list(args)
+        kw = dict(kwargs)
+        for i in range(len(out), len(names)):
+            nm = names[i]
+            if nm in kw:
+                out.append(kw.pop(nm))
+            elif nm in defaults and isinstance(defaults[nm], ast.Constant) and len(sigs) == 1 and \
+                    any(n2 in kw for n2 in names[i + 1:]):
+                out.append(self.const(defaults[nm].value))
+            else:
+                break
+        return out, kw
 
     def ext_name(self, e: ast.Call, s: State, exts) -> Optional[str]:
         ds = [d for d in exts if not d.startswith('<')]
